@@ -890,7 +890,7 @@ def stdin_script(rnd):
     return data, desc
 
 
-def modelled_case(rnd, subs=None):
+def modelled_case(rnd, subs=None, format_types=None):
     sub = rnd.choice(subs or ["color", "lighten", "darken", "saturate", "desaturate", "rotate", "complement", "to-gray", "textcolor",
                               "colorblind", "set", "format", "mix", "color", "format", "set", "gray", "gradient", "sort-by", "paint", "random", "distinct", "pick"])
     if sub in ("lighten", "darken", "saturate", "desaturate"):
@@ -903,7 +903,7 @@ def modelled_case(rnd, subs=None):
         p = rnd.choice(SET_PROPS)
         cargs = [rnd.choice([p, p.upper(), p.title(), p.swapcase()]), number_text(rnd, 0, 255 if p in ("red", "green", "blue") else 1)]
     elif sub == "format":
-        t = rnd.choice(FORMAT_TYPES)
+        t = rnd.choice(format_types or FORMAT_TYPES)
         cargs = [rnd.choice([t, t, t.upper(), t.title()])]
     elif sub == "mix":
         base = rnd.choice([rand_color_text(rnd), rand_color_text(rnd), bad_color_text(rnd), "-"])
@@ -996,13 +996,13 @@ def modelled_case(rnd, subs=None):
 UNPREDICTED_OUTPUT = ("random", "distinct", "pick")
 
 
-def modelled_family(res, rnd, subs, n):
+def modelled_family(res, rnd, subs, n, format_types=None):
     """Random invocations of the given subcommands (random amounts incl. overshoot and malformed numbers,
     option values in any letter case, colours as arguments / `-` / stdin lines incl. bad and non-UTF-8
     ones): exit status, stdout bytes, error class and message must equal the Lean model's."""
     ops, meta = [], []
     for _ in range(n):
-        argv, data, op = modelled_case(rnd, subs)
+        argv, data, op = modelled_case(rnd, subs, format_types)
         if argv is None:
             continue
         rc, out, err = run_cli(argv, stdin=data)
@@ -1479,7 +1479,7 @@ def c10(res, tier, seed, lib):
 def c01(res, tier, seed, lib):
     """The CLI hands every colour string to the parser unchanged: accepted strings print the colour
     the library reads, rejected ones give exit 1 and `Could not parse color '<text>'`."""
-    modelled_family(res, random.Random(seed + 77), ['color', 'format'], 100 if tier != "thorough" else 1500)
+    modelled_family(res, random.Random(seed + 77), ['color', 'format'], 100 if tier != "thorough" else 1500, format_types=["hex", "rgb", "hsl"])  # C01 is about what is read, not how it is printed
     n = 260 if tier != "thorough" else 4000
     ans = harness_query(["c01gen %d %d" % (n, seed)])[0]
     strs = [unhex(x) for x in ans.split(" ")[1].split(",")] if ans.startswith("ok ") else []
@@ -1641,12 +1641,15 @@ FORMAT_TYPES = ["rgb", "rgb-float", "hex", "hsl", "hsl-hue", "hsl-saturation", "
 def c04(res, tier, seed, lib):
     """`pastel format <type>` prints, for each type, the coordinate of that name as the reference
     evaluation (the Lean model) computes it, in the documented precision."""
-    modelled_family(res, random.Random(seed + 77), ['format'], 150 if tier != "thorough" else 2000)
+    # the format types that print a coordinate of one of C04's spaces (ansi-* and name belong to C12, C13, C18:
+    # a change there is not a disagreement with the published definitions)
+    coord_types = [t for t in FORMAT_TYPES if not t.startswith("ansi-") and t != "name"]
+    modelled_family(res, random.Random(seed + 77), ['format'], 150 if tier != "thorough" else 2000, format_types=coord_types)
     rnd = random.Random(seed)
     cols = ["#%02x%02x%02x" % (rnd.randrange(256), rnd.randrange(256), rnd.randrange(256)) for _ in range(6 if tier != "thorough" else 80)]
     cols += ["black", "white", "#0b0b0b", "rgba(200,100,50,0.5)", "hsl(300,40%,60%)", "rebeccapurple"]
     ops, meta = [], []
-    for t in FORMAT_TYPES:
+    for t in coord_types:
         argv = ["format", t] + cols
         rc, out, err = run_cli(argv)
         inp = " ".join(argv)
